@@ -51,7 +51,7 @@ func init() {
 	reg("C03", ruleEmittedSymbols, rulePlan, ruleJsonKinds, ruleTrivialRecordTrait, ruleJsonNamesAreModelNames)
 	reg("C08", ruleEmittedSymbols, ruleSwitchDefaults(backendFiles, "P4", 25), ruleReservedTables, ruleIdentifierHelpers, ruleDependenciesFirst, ruleOptionGating, ruleUniquenessVsMangling)
 	reg("C19", ruleCommonTypeMap, ruleEmitterSiblings, ruleParenthesisation, ruleOperatorTokens, rulePromotionNotBypassed)
-	reg("C13", ruleAliasTable, ruleSpellingErased, ruleShorthandTwins, ruleDocCommentSuffix, ruleTypeTags, ruleSchemaCanonical, rulePrunes(topoSortFiles, "V5", 2))
+	reg("C13", ruleAliasTable, ruleFilesAreCombined, ruleSpellingErased, ruleShorthandTwins, ruleDocCommentSuffix, ruleTypeTags, ruleSchemaCanonical, rulePrunes(topoSortFiles, "V5", 2))
 	reg("C07", ruleStateMachine, ruleNoReturnBeforeStateGuard)
 	reg("C02", ruleJsonKinds, ruleUnionTagDecision, ruleKindTests, ruleOptionalFieldSymmetry, ruleJsonNamesAreModelNames)
 	reg("C14", rulePlan, ruleRecordOrder, ruleOptionalFieldSymmetry, ruleTrivialRecordTrait)
